@@ -130,6 +130,21 @@ func ruleC07R1(c *Ctx) {
 				{"Schema.Items", "Schema.AdditionalItems"}, // draft-07 single-schema items vs the tail after array-form items
 			}
 			okAlt := false
+			// keywords of different drafts never apply to the same schema (C02/draft-keywords-gated decides the gating)
+			{
+				drafts := map[string]bool{}
+				allDraftOnly := true
+				for _, src := range s.SchemaSrc {
+					if d, ok := draftOnlyFields[src]; ok {
+						drafts[d] = true
+					} else {
+						allDraftOnly = false
+					}
+				}
+				if allDraftOnly && len(drafts) == len(s.SchemaSrc) {
+					okAlt = true
+				}
+			}
 			for _, g := range groups {
 				all := true
 				for _, src := range s.SchemaSrc {
@@ -544,7 +559,7 @@ func ruleC07R4(c *Ctx) {
 			}
 		})
 	}
-	c.R.Floor(rule, "annotation-recording operations in the evaluator", n, 8)
+	c.R.Floor(rule, "annotation-recording operations in the evaluator", n, 5)
 }
 
 // instanceKindFlow computes kind facts about the evaluator's instance in fn.
@@ -1008,7 +1023,7 @@ func ruleC07Records(c *Ctx) {
 				fmt.Sprintf("a successful evaluation of %s can reach the success exit without %s: the evaluated children would later be handed to unevaluated* again (or a parent's unevaluated* would re-apply to them)", src, what))
 		}
 	}
-	c.R.Floor(rule, "child evaluation sites that must record", n, 11)
+	c.R.Floor(rule, "child evaluation sites that must record", n, 7)
 	// the per-schema set reaches the record
 	if evalPropsCell == nil {
 		c.R.Bad(rule, "noteProperties", c.P.Pos(m.E.Pos()), "the per-schema evaluated-property set is never handed to the frame's record (noteProperties)")
